@@ -239,8 +239,8 @@ def case(spec):
                     for k, t in slots.items():
                         title_of[(path, k)] = t
             probes = [d for d in sorted(prev_map) if prev_map[d] in title_of]
-            if len(probes) > 8:
-                probes = rng.sample(probes, 8)
+            if len(probes) > 10:
+                probes = rng.sample(probes, 10)
             for d in probes:
                 want = title_of[prev_map[d]]
                 how = rng.choice(['arg', 'drive-opt', 'colon'])
@@ -248,14 +248,34 @@ def case(spec):
                     argv = [dfsbin] + opts + ['show-titles', str(d)]
                     expect = ('%d: %s\n' % (d, want)).encode()
                 elif how == 'drive-opt':
-                    argv = [dfsbin] + opts + ['--drive', str(d), 'type', '--binary', 'ID']
-                    expect = ('unique body of %s' % want).encode()
+                    # the current drive, with other context options before or after it
+                    extra = rng.choice([[], ['--ui', rng.choice(['acorn', 'watford', 'opus'])], ['--dir', '$'], ['--verbose']])
+                    ctxo = ['--drive', str(d)] + extra if rng.random() < 0.5 else extra + ['--drive', str(d)]
+                    if rng.random() < 0.5:
+                        argv = [dfsbin] + opts + ctxo + ['type', '--binary', 'ID']
+                        expect = ('unique body of %s' % want).encode()
+                    else:
+                        argv = [dfsbin] + opts + ctxo + ['info', 'ID']
+                        expect = None
+                        how = 'drive-opt-info'
                 else:
                     argv = [dfsbin] + opts + ['type', '--binary', ':%d.$.ID' % d]
                     expect = ('unique body of %s' % want).encode()
                 r_ = run(argv, timeout=60)
                 res.execs += 1
                 res.events += 1
+                if expect is None:
+                    # info of the unique file: its length identifies the surface
+                    ln = len(('unique body of %s' % want).encode())
+                    ok = r_.rc == 0 and (b' %06X ' % ln) in r_.out and r_.out.startswith(b'$.ID')
+                    # lengths may coincide between surfaces: confirm with the title as well
+                    r2 = run(argv[:-2] + ['cat'], timeout=60)
+                    res.execs += 1
+                    ok = ok and r2.rc == 0 and want.encode() in r2.out.split(b'\n')[0]
+                    if not ok:
+                        res.violation('wrong-surface-read:%s' % how, 'drive %d (via --drive) should show the disc titled %r'
+                                      % (d, want), {'history': hist, 'run': r_.brief(), 'cat': r2.brief()}, files, r_.argv)
+                    continue
                 if clean_failure_key(r_, (0, 1, 2)) or r_.rc != 0 or r_.out != expect:
                     res.violation('wrong-surface-read:%s' % how, 'drive %d should deliver %r, got %r (exit %s)'
                                   % (d, expect[:40], r_.out[:60], r_.rc), {'history': hist, 'run': r_.brief()}, files, r_.argv)
